@@ -106,7 +106,14 @@ class Builder:
 
     def mk_tensor(self, name=None):
         rng = self.rng
-        kind = rng.randrange(5)
+        kind = rng.randrange(8)
+        if kind == 5:
+            return ir.StringTensor(np.array([b"a", b"bc"][: rng.randint(1, 2)]), name=name)
+        if kind == 6:
+            return ir.LazyTensor(lambda: ir.tensor(np.full((2,), 0.5, dtype=np.float32)), dtype=DT.FLOAT,
+                                 shape=ir.Shape([2]), name=name)
+        if kind == 7:
+            return ir.PackedTensor(np.array([0x21, 0x43], dtype=np.uint8), DT.INT4, shape=[4], name=name)
         if kind == 0:
             arr = np.arange(rng.randint(1, 6), dtype=np.float32)
         elif kind == 1:
